@@ -18,7 +18,15 @@ import (
 	"time"
 )
 
-const Root = "/verif"
+// Root is where evidence/, replay/ and known_findings.json live. VERIF_ROOT redirects it for
+// runs against scratch copies of the repository (seeded changes), so that the committed
+// evidence of /verif is not overwritten by such runs.
+var Root = func() string {
+	if r := os.Getenv("VERIF_ROOT"); r != "" {
+		return r
+	}
+	return "/verif"
+}()
 
 // Finding is one entry of known_findings.json.
 type Finding struct {
